@@ -246,12 +246,33 @@ impl Ord for Number {
                     l.cmp(&(*r as u64))
                 }
             }
-            (_, _) => {
-                let l = OrderedFloat(self.as_f64().unwrap());
-                let r = OrderedFloat(other.as_f64().unwrap());
-                l.cmp(&r)
-            }
+            (Number::Int64(l), Number::Float64(r)) => cmp_int_float(*l as i128, *r),
+            (Number::UInt64(l), Number::Float64(r)) => cmp_int_float(*l as i128, *r),
+            (Number::Float64(l), Number::Int64(r)) => cmp_int_float(*r as i128, *l).reverse(),
+            (Number::Float64(l), Number::UInt64(r)) => cmp_int_float(*r as i128, *l).reverse(),
+            (Number::Float64(l), Number::Float64(r)) => OrderedFloat(*l).cmp(&OrderedFloat(*r)),
         }
+    }
+}
+
+// Compare an integer with a float by their exact mathematical values,
+// converting the integer to f64 would round integers beyond 2^53.
+// NaN is greater than any other number, same as `OrderedFloat`.
+fn cmp_int_float(l: i128, r: f64) -> Ordering {
+    if r.is_nan() {
+        return Ordering::Less;
+    }
+    // every i64 and u64 lies strictly between -2^64 and 2^64
+    if r >= 18446744073709551616.0 {
+        return Ordering::Less;
+    }
+    if r <= -18446744073709551616.0 {
+        return Ordering::Greater;
+    }
+    let t = r.trunc();
+    match l.cmp(&(t as i128)) {
+        Ordering::Equal => 0f64.partial_cmp(&(r - t)).unwrap_or(Ordering::Equal),
+        ord => ord,
     }
 }
 
